@@ -34,11 +34,13 @@ import GqlModel.Validate.Engine
   * the (E) chain `collectConflictsBetweenFieldsAndFragment → itself` (`chain`, own fuel);
   * the (G) recursion of `collectConflictsBetweenFragments.check` (`check`, own fuel).
   `none` = out of fuel.  `overlapFuel` hands out `2·F²+2` levels (`F` = field nodes of the
-  document; every nested `findConflict` has a fresh `(fieldA, fieldB, exclusive)` triple in the
-  in-progress set), `N+2` chain frames and `2·N²+2` check frames (`N` = spread nodes; a chain
-  frame adds a fresh name to its local `comparedFragments`, a check frame turns a fresh
-  `(nameA, nameB, exclusive)` triple of `comparedFragmentPairs` from "not had" to "had").
-  `GqlProofs/Validate/Overlap*.lean` has the theorems about these bounds.
+  selection set the observer was called for plus those of all fragment definitions — nothing
+  else is reachable; every nested `findConflict` has a fresh `(fieldA, fieldB, exclusive)` triple
+  in the in-progress set), `K+2` chain frames and `2·K²+2` check frames (`K` = fragment
+  definitions; a chain frame that recurses adds the name of a fragment definition to its local
+  `comparedFragments`, a check frame that recurses turns a fresh `(nameA, nameB, exclusive)`
+  triple of fragment names of `comparedFragmentPairs` from "not had" to "had").
+  `GqlProofs/Validate/Overlap*.lean` proves that these bounds are never exhausted.
 -/
 namespace Gql.Validate.Rules
 open Gql Gql.Validate
@@ -495,33 +497,24 @@ mutual
     | .spread _ _ _ => 0
 end
 
-mutual
-  /-- number of fragment spread nodes of a selection set -/
-  def countSpreads : Selections → Nat
-    | .nil => 0
-    | .cons x rest => countSpreadsSel x + countSpreads rest
-  def countSpreadsSel : Selection → Nat
-    | .field _ _ _ _ sub _ => countSpreads sub
-    | .inline _ _ sub _ => countSpreads sub
-    | .spread _ _ _ => 1
-end
-
 def sumNat (l : List Nat) : Nat := l.foldr (· + ·) 0
 
-/-- `F`: field nodes of the document -/
-def docFieldCount (d : QueryDoc) : Nat :=
-  sumNat (d.ops.map fun o => countFields o.sel) + sumNat (d.frags.map fun f => countFields f.sel)
+/-- field nodes inside the fragment definitions of the document -/
+def fragFieldCount (d : QueryDoc) : Nat := sumNat (d.frags.map fun f => countFields f.sel)
 
-/-- `N`: fragment spread nodes of the document -/
-def docSpreadCount (d : QueryDoc) : Nat :=
-  sumNat (d.ops.map fun o => countSpreads o.sel) + sumNat (d.frags.map fun f => countSpreads f.sel)
+/-- `F`: the field nodes that one `findConflictsWithinSelectionSet(sels)` can reach — those of
+    `sels` itself and those of the fragment definitions -/
+def reachableFieldCount (d : QueryDoc) (sels : Selections) : Nat := countFields sels + fragFieldCount d
 
 /-- nested `findConflict` calls allowed: one per `(fieldA, fieldB, exclusive)` triple, plus slack -/
-def overlapFuel (d : QueryDoc) : Nat := 2 * docFieldCount d * docFieldCount d + 2
+def overlapFuel (d : QueryDoc) (sels : Selections) : Nat :=
+  2 * reachableFieldCount d sels * reachableFieldCount d sels + 2
 
-def overlapChainFuel (d : QueryDoc) : Nat := docSpreadCount d + 2
+/-- frames of one (E) chain: one per fragment definition, plus slack -/
+def overlapChainFuel (d : QueryDoc) : Nat := d.frags.length + 2
 
-def overlapCheckFuel (d : QueryDoc) : Nat := 2 * docSpreadCount d * docSpreadCount d + 2
+/-- frames of one `check` recursion: one per `(fragment, fragment, exclusive)` triple, plus slack -/
+def overlapCheckFuel (d : QueryDoc) : Nat := 2 * d.frags.length * d.frags.length + 2
 
 def overlapEnv (s : SV) (d : QueryDoc) (l : Links) : Env :=
   { s := s, d := d, l := l, chainFuel := overlapChainFuel d, checkFuel := overlapCheckFuel d }
@@ -530,7 +523,7 @@ def overlapEnv (s : SV) (d : QueryDoc) (l : Links) : Env :=
 def overlapRun (s : SV) (d : QueryDoc) (l : Links) (parent : Option Definition) (sels : Selections)
     (P : Pairs) : Option (Pairs × List Conflict) :=
   let env := overlapEnv s d l
-  findConflictsWithinSelectionSet env (fcLevel env (overlapFuel d)) parent sels P
+  findConflictsWithinSelectionSet env (fcLevel env (overlapFuel d sels)) parent sels P
 
 def overlapOutOfFuel : Bytes := str "model: out of fuel"
 
